@@ -27,7 +27,7 @@ import evalstream as es
 
 PID = "C01"
 MANIFEST = {
-    "text": "37 Coq theorems over the evaluator model (explicit Panic outcome for every partial Rust operation on a "
+    "text": "38 Coq theorems over the evaluator model (explicit Panic outcome for every partial Rust operation on a "
             "modelled path): evaluation at any call-depth budget from any configuration whose innermost frame is Owned "
             "never returns Panic and keeps that invariant — for every operator/built-in implementation that does not "
             "panic itself; hypotheses discharged for the transcribed operators (26 ops x 3 broadcasting arms: no "
@@ -54,8 +54,9 @@ MANIFEST = {
             "core (any valid-in/valid-out panic-free operators and built-ins).  PARTIAL / explicit side condition: percentile's list "
             "length <= 2^53 is NOT discharged (no resource bound of the model rules such a list out): the evaluator-level theorems "
             "are stated for builtin_all_fit o = builtin_all o except that percentile of a longer list is an error "
-            "(C01_percentile_guard_is_the_only_difference); valid_expr of parsed programs is tied by the ALL stream (valid_progb "
-            "evaluated on every parsed program) and by C16's literal theorems, not by a theorem over PegToItems.  "
+            "(C01_percentile_guard_is_the_only_difference); valid_expr of parsed programs: C01_parsed_number_literal_valid (the one place where the text -> AST model creates a "
+            "number, PegToItems.number_item, only creates valid ones) + the ALL stream evaluating valid_progb on every parsed "
+            "program; NOT a theorem over the whole of PegToItems + Pratt.  "
             "C01_builtin_call_no_panic_full (stated over EvalInst.builtin_impl, which answers Unmodelled for 50 built-ins) stays a "
             "Definition; its content is the _all theorems.  "
             "parser, formatter, printer, JSON and error-rendering stages and all error spans are library/string code "
